@@ -270,6 +270,79 @@ theorem readSides_writes (target : Str) : ∀ (sides : List Disk.Side) (i : Nat)
           rw [hkeep] at this
           exact this
 
+/-- the same with the side index bounded: `sideK` with `K < n` -/
+def DiskWritableB (target : Str) (n : Nat) (path : Str) : Prop :=
+  ∃ k f, k < n ∧ path = pathJoin (pathJoin target (Tape.str "side" ++ digits k)) f ∧ f.contains 47 = false ∧ f.contains 0 = false
+    ∧ f ≠ [46] ∧ f ≠ [46, 46] ∧ f ≠ []
+
+theorem readSides_writesB (target : Str) : ∀ (sides : List Disk.Side) (i : Nat) (st : Disk.RdState),
+    (∀ w ∈ st.writes, DiskWritableB target (i + sides.length) w.1 ∧ Tape.collides st.keep w.1 = false) →
+    ∀ w ∈ (Disk.readSides (some target) sides i st).1.writes, DiskWritableB target (i + sides.length) w.1 ∧ Tape.collides st.keep w.1 = false := by
+  intro sides
+  induction sides with
+  | nil => intro i st h w hw; simp only [Disk.readSides] at hw; exact h w hw
+  | cons sd rest ih =>
+    intro i st h w hw
+    simp only [Disk.readSides, Option.map_some] at hw
+    cases hb : Disk.getBat sd with
+    | error e => rw [hb] at hw; exact h w hw
+    | ok bat =>
+      rw [hb] at hw
+      dsimp only at hw
+      cases hl : Disk.listFiles sd with
+      | error e => rw [hl] at hw; exact h w hw
+      | ok entries =>
+        rw [hl] at hw
+        dsimp only at hw
+        have hside : ∀ w' ∈ (Disk.readEntries sd bat (some (pathJoin target (Tape.str "side" ++ digits i))) entries
+            { l := Disk.onBeginOfSide st.l i, mkdirs := st.mkdirs ++ [pathJoin target (Tape.str "side" ++ digits i)], writes := st.writes, keep := st.keep }).1.writes,
+            DiskWritableB target (i + (sd :: rest).length) w'.1 ∧ Tape.collides st.keep w'.1 = false := by
+          intro w' hw'
+          rcases readEntries_writes sd bat _ entries _ w' hw' with h1 | ⟨f, hf, h47, h0, hd1, hd2, hne, hc⟩
+          · exact h w' h1
+          · exact ⟨⟨i, f, by simp, hf, h47, h0, hd1, hd2, hne⟩, hc⟩
+        have hkeep := readEntries_keep sd bat (some (pathJoin target (Tape.str "side" ++ digits i))) entries
+            { l := Disk.onBeginOfSide st.l i, mkdirs := st.mkdirs ++ [pathJoin target (Tape.str "side" ++ digits i)], writes := st.writes, keep := st.keep }
+        generalize hr : Disk.readEntries sd bat (some (pathJoin target (Tape.str "side" ++ digits i))) entries
+            { l := Disk.onBeginOfSide st.l i, mkdirs := st.mkdirs ++ [pathJoin target (Tape.str "side" ++ digits i)], writes := st.writes, keep := st.keep } = r at hw hside hkeep
+        obtain ⟨st', oe⟩ := r
+        cases oe with
+        | some e => exact hside w hw
+        | none =>
+          dsimp only at hw hside hkeep
+          have hb' : i + 1 + rest.length = i + (sd :: rest).length := by simp; omega
+          have := ih (i + 1) { st' with l := Disk.onEndOfSide st'.l (Disk.computeUsage bat) } (by dsimp only; rw [hkeep, hb']; exact hside) w hw
+          dsimp only at this
+          rw [hkeep, hb'] at this
+          exact this
+
+theorem load_length_le (fl : Disk.Flavour) (raw : Bytes) (img : Disk.Image) (h : Disk.load fl raw = .ok img) : img.length ≤ 4 := by
+  unfold Disk.load at h
+  dsimp only at h
+  repeat' split at h
+  all_goals first
+    | (cases h; simp only [List.length_replicate]; omega)
+    | (cases h; simp only [List.length_map, List.length_range]; exact Nat.min_le_right _ _)
+    | cases h
+
+/-- **C18 (disk confinement, the side directories are `side0` … `side3`)**: every path `--extract` writes is
+    `destination/sideK/<entry>` with `K < 4`, whatever the bytes of the image -/
+theorem disk_confined_four_sides (fl : Disk.Flavour) (verbose : Bool) (archive : Str) (into : Option Str) (raw : Bytes) :
+    ∀ w ∈ (Disk.extract fl verbose archive into raw).writes, DiskWritableB (Tape.targetDirOf archive into) 4 w.1 := by
+  intro w hw
+  unfold Disk.extract at hw
+  cases hl : Disk.load fl raw with
+  | error e => rw [hl] at hw; simp at hw
+  | ok img =>
+    rw [hl] at hw
+    dsimp only at hw
+    have hfin : ∀ (r : Disk.RdState × Option PyErr), (Disk.finishRead r).writes = r.1.writes := by
+      intro r; obtain ⟨s, o⟩ := r; cases o <;> rfl
+    rw [hfin] at hw
+    obtain ⟨k, f, hk, rest⟩ := (readSides_writesB _ img 0 _ (by intro w' hw'; simp at hw') w hw).1
+    have := load_length_le fl raw img hl
+    exact ⟨k, f, by omega, rest⟩
+
 /-- **C18 (disk confinement)**: whatever the bytes of the image — any table, any catalog, any names —
     every path `--extract` writes is `destination/sideN/<one component without '/' and NUL, neither `.` nor `..`>` -/
 theorem disk_confined (fl : Disk.Flavour) (verbose : Bool) (archive : Str) (into : Option Str) (raw : Bytes) :
